@@ -460,9 +460,12 @@ func panswers(pr *ring.PartitionRing, now time.Time, flip bool) []string {
 		tr, err := pr.GetTokenRangesForPartition(i)
 		add(fmt.Sprintf("ranges(%d)", i), fmt.Sprint(tr, err != nil, pr.PartitionOwnerIDsCopy(i)))
 	}
-	times := []int64{-150, 0, 200}
+	// query times in milliseconds relative to now; the fractional ones put the start of the 100 s window half a
+	// second after a state change made just now (+100.5 s) or one clock step ago (+40.5 s): the shard and the
+	// validity of its cache entry are decided with one-second granularity
+	times := []int64{-150000, 0, 40500, 100500, 200000}
 	if flip {
-		times = []int64{200, -150, 0}
+		times = []int64{200000, 100500, -150000, 40500, 0}
 	}
 	for _, tenant := range []string{"tenant-a", "t2"} {
 		for _, size := range []int{1, 2, 0, 9} {
@@ -473,8 +476,8 @@ func panswers(pr *ring.PartitionRing, now time.Time, flip bool) []string {
 				add(fmt.Sprintf("ShuffleShard(%s,%d)", tenant, size), fmt.Sprint(s.PartitionIDs(), s.ActivePartitionIDs()))
 			}
 			for _, dt := range times {
-				s, err := pr.ShuffleShardWithLookback(tenant, size, 100*time.Second, now.Add(time.Duration(dt)*time.Second))
-				n := fmt.Sprintf("ShuffleShardWithLookback(%s,%d,100s,now%+ds)", tenant, size, dt)
+				s, err := pr.ShuffleShardWithLookback(tenant, size, 100*time.Second, now.Add(time.Duration(dt)*time.Millisecond))
+				n := fmt.Sprintf("ShuffleShardWithLookback(%s,%d,100s,now%+dms)", tenant, size, dt)
 				if err != nil {
 					add(n, "err "+err.Error())
 				} else {
